@@ -1170,3 +1170,54 @@ def m_enumerate_next(ex, st, callee, args, dty, m):
 @model(r"<(?:std::iter::|core::iter::)?Enumerate<.*> as IntoIterator>::into_iter$")
 def m_enumerate_into_iter(ex, st, callee, args, dty, m):
     return args[0]
+
+
+# ---------------------------------------------------------------- Box and LinkedList
+@model(r"Box::<.*>::new$")
+def m_box_new(ex, st, callee, args, dty, m):
+    return Agg("box", "Box", [Ref(Cell(args[0]), (), True)])
+
+
+@model(r"LinkedList::<.*>::new$|<LinkedList<.*> as Default>::default$")
+def m_ll_new(ex, st, callee, args, dty, m):
+    return Seq([], None)
+
+
+@model(r"LinkedList::<.*>::push_back$")
+def m_ll_push_back(ex, st, callee, args, dty, m):
+    v = deref(ex, args[0])
+    if isinstance(v, Seq):
+        v.items.append(args[1])
+        return UNIT
+    return NotImplemented
+
+
+@model(r"LinkedList::<.*>::pop_front$")
+def m_ll_pop_front(ex, st, callee, args, dty, m):
+    v = deref(ex, args[0])
+    if isinstance(v, Seq):
+        if v.items:
+            return mk_some(dty, v.items.pop(0))
+        return mk_none(dty)
+    return NotImplemented
+
+
+@model(r"LinkedList::<.*>::(len|is_empty|clear)$")
+def m_ll_misc(ex, st, callee, args, dty, m):
+    v = deref(ex, args[0])
+    if not isinstance(v, Seq):
+        return NotImplemented
+    if m.group(1) == "len":
+        return u64(len(v.items))
+    if m.group(1) == "is_empty":
+        return z3.BoolVal(len(v.items) == 0)
+    v.items[:] = []
+    return UNIT
+
+
+@model(r"Option::<.*>::unwrap_or$")
+def m_unwrap_or_val(ex, st, callee, args, dty, m):
+    v = as_enum(ex, args[0], "Option")
+    if v.variant is not None:
+        return payload(ex, v, "Some") if v.variant == "Some" else args[1]
+    return ("__fork__", [(enum_is(ex, v, "Some"), payload(ex, v, "Some")), (enum_is(ex, v, "None"), args[1])])
